@@ -36,13 +36,15 @@ theorem push_completeH (ext : Ext) : ∀ (x : SVal), noRaw x = true → CompH ex
   | .none, _ => by
     intro b dt n md lv hg hr hi
     rw [interpDT] at hi
-    obtain ⟨b', h1, h2⟩ := pushNone_completeH b dt n md lv hg.wf hg.shape hg.tot hi
-    exact ⟨b', by rw [push]; exact h1, by rw [h2]; omega⟩
+    simp only [vsize] at hr ⊢
+    obtain ⟨b', h1, h2⟩ := pushNone_completeH b dt n md lv hg.wf hg.shape hg.tot hi hr
+    exact ⟨b', by rw [push]; exact h1, h2⟩
   | .unit, _ => by
     intro b dt n md lv hg hr hi
     rw [interpDT] at hi
-    obtain ⟨b', h1, h2⟩ := pushNone_completeH b dt n md lv hg.wf hg.shape hg.tot hi
-    refine ⟨b', ?_, by rw [h2]; omega⟩
+    simp only [vsize] at hr ⊢
+    obtain ⟨b', h1, h2⟩ := pushNone_completeH b dt n md lv hg.wf hg.shape hg.tot hi hr
+    refine ⟨b', ?_, h2⟩
     cases b with
     | unknownVariant p => simp [pushNone, ctx_ok, fail] at h1
     | _ => simp only [push]; exact h1
@@ -133,12 +135,14 @@ theorem push_completeH (ext : Ext) : ∀ (x : SVal), noRaw x = true → CompH ex
       simp only [room] at hr
       obtain ⟨b', hb', hroom⟩ := union_row_completeH (pc := fun c => match c with
           | .unknownVariant _ => ctx c.ann (fail "Unknown variant does not support serialize_unit")
-          | _ => pushNone c) (cost := 0) hg hufs (fun c hgc _ => by
-        obtain ⟨c', h1, h2⟩ := pushNone_completeH c cdt cn cmd lvc hgc.wf hgc.shape hgc.tot hin
-        refine ⟨c', ?_, by rw [h2]; omega⟩
+          | _ => pushNone c) (cost := 1) hg hufs (by have := vsize_pos ext (.unitVariant a i vn); omega) (fun c hgc hrc => by
+        have hv1 := vsize_pos ext (.unitVariant a i vn)
+        obtain ⟨c', h1, h2⟩ := pushNone_completeH c cdt cn cmd lvc hgc.wf hgc.shape hgc.tot hin (by omega)
+        refine ⟨c', ?_, h2⟩
         cases c with
         | unknownVariant p => simp [pushNone, ctx_ok, fail] at h1
         | _ => exact h1)
+      have hv1 := vsize_pos ext (.unitVariant a i vn)
       exact ⟨b', by simp only [push, ctx_ok]; exact hb', by simp only [room]; omega⟩
     | _ =>
       have hnu := Shape_not_union hg.shape (fun _ _ _ _ _ h => by cases h)
@@ -153,7 +157,7 @@ theorem push_completeH (ext : Ext) : ∀ (x : SVal), noRaw x = true → CompH ex
     obtain ⟨ufs, mode, tid, nm, cdt, cn, cmd, lvc, rfl, hufs, hiv⟩ := interpDT_newtypeVariant_inv hi
     obtain ⟨p, fs, t, o, c, rfl⟩ := Shape_union_form hg.shape
     simp only [room] at hr
-    obtain ⟨b', hb', hroom⟩ := union_row_completeH (pc := fun c => push ext c v) (cost := vsize ext v) hg hufs
+    obtain ⟨b', hb', hroom⟩ := union_row_completeH (pc := fun c => push ext c v) (cost := vsize ext v) hg hufs (by have := vsize_pos ext v; omega)
       (fun c hgc hrc => push_completeH ext v hraw' c cdt cn cmd lvc hgc (by omega) hiv)
     exact ⟨b', by simp only [push, ctx_ok]; exact hb', by simp only [room]; omega⟩
   | .tupleVariant a i vn xs, hraw => by
@@ -166,7 +170,7 @@ theorem push_completeH (ext : Ext) : ∀ (x : SVal), noRaw x = true → CompH ex
     simp only [room] at hr
     obtain ⟨b', hb', hroom⟩ := union_row_completeH (pc := fun c => ctx c.ann (seqLikeWith
         (fun large el offs => pushElems ext large el offs xs) (fun el c => pushCountElems ext el c xs)
-        (fun s => pushTupleElems ext s xs) (u8All xs) c .tupleStruct)) (cost := vsizes ext xs + 1) hg hufs
+        (fun s => pushTupleElems ext s xs) (u8All xs) c .tupleStruct)) (cost := vsizes ext xs + 1) hg hufs (by omega)
       (fun c hgc hrc => by
         obtain ⟨c', h1, h2⟩ := seqValue_completeH hraw' (pushElems_completeH ext xs hraw')
           (pushCountElems_completeH ext xs hraw') (pushTupleElems_completeH ext xs hraw') c .tupleStruct cdt cn cmd lvc hgc
@@ -182,7 +186,7 @@ theorem push_completeH (ext : Ext) : ∀ (x : SVal), noRaw x = true → CompH ex
     obtain ⟨p, fs, t, o, c, rfl⟩ := Shape_union_form hg.shape
     simp only [room] at hr
     obtain ⟨b', hb', hroom⟩ := union_row_completeH (pc := fun c => ctx c.ann (recordWith (fun s => pushFields ext s fields) c))
-      (cost := vsizef ext fields + 1) hg hufs (fun c hgc hrc => by
+      (cost := vsizef ext fields + 1) hg hufs (by omega) (fun c hgc hrc => by
         obtain ⟨c', h1, h2⟩ := recordValue_completeH hraw' (pushFields_completeH ext fields hraw') hgc (by omega) hso
         exact ⟨c', (ctx_ok _ _ _).2 h1, h2⟩)
     exact ⟨b', by simp only [push, ctx_ok]; exact hb', by simp only [room]; omega⟩
@@ -251,8 +255,9 @@ theorem push_completeH (ext : Ext) : ∀ (x : SVal), noRaw x = true → CompH ex
   | .unitStruct x, _ => by
     intro b dt n md lv hg hr hi
     rw [interpDT] at hi
-    obtain ⟨b', h1, h2⟩ := pushNone_completeH b dt n md lv hg.wf hg.shape hg.tot hi
-    refine ⟨b', ?_, by rw [h2]; omega⟩
+    simp only [vsize] at hr ⊢
+    obtain ⟨b', h1, h2⟩ := pushNone_completeH b dt n md lv hg.wf hg.shape hg.tot hi hr
+    refine ⟨b', ?_, h2⟩
     cases b with
     | unknownVariant p => simp [pushNone, ctx_ok, fail] at h1
     | _ => simp only [push]; exact h1
